@@ -799,6 +799,197 @@ def tuple_field_of_loop(fa, S, op, call_block):
     return None
 
 
+def csvrow(ctx):
+    """CSVROW (C17, C18, C20, C07, C16): utils::parse_csv_row turns a feature string (a CSV row)
+    into its cells - the column numbers of templates and rewrite rules, and the feature text of
+    bigram.left/right, depend on it. It drives csv-core field by field through a fixed buffer:
+      (a) every chunk `output[..nout]` a read_field call produced is appended to the cell being
+          built before the loop reads again or emits the cell (an `OutputFull` step included - a
+          cell longer than the buffer is otherwise cut);
+      (b) what is emitted is the accumulated cell, not the buffer;
+      (c) a Field or InputEmpty outcome emits a cell before the next read or the return (the
+          last cell too, also when it is empty: `x,y,` has three cells);
+      (e) the End outcome emits nothing (csv-core has returned every field by then; `x,y,` does
+          not have four cells);
+      (d) the input is advanced by the consumed count `nin` on every iteration.
+    csv-core contract used: ReadFieldResult variants in declaration order InputEmpty, OutputFull,
+    Field, End (csv-core 0.1 src/reader.rs), i.e. discriminant 1 = OutputFull."""
+    crate = ctx.facts("A").lib
+    E = Effects(crate)
+    p = "vibrato::utils::parse_csv_row"
+    f = crate.fns.get(p)
+    if f is None or not f.body:
+        raise EngineError("CSVROW: anchor lost: %s" % p)
+    fa = E.fa(p)
+    S = Sym(E, fa, depth=30)
+    reads = calls_named(fa, "read_field")
+    if len(reads) != 1:
+        raise EngineError("CSVROW: expected one read_field call in parse_csv_row, found %d" % len(reads))
+    rb, rt = reads[0]
+    after = rt.get("t")
+    outbuf = buffer_var(fa, rt["args"][2])
+    res = rt["dest"]["l"]
+
+    def tuple_field_of_result(op):
+        """which component of read_field's result an operand copies (0 result, 1 nin, 2 nout)"""
+        pl = op_place(op)
+        for _ in range(8):
+            if pl is None:
+                return None
+            if pl["l"] == res:
+                fs = [e["f"] for e in pl["p"] if e != "*" and "f" in e and e.get("o") == "(tuple)"]
+                return fs[0] if fs else None
+            if pl["p"]:
+                return None
+            d = fa.single_def(pl["l"])
+            if d is None or d[2] != "assign" or d[3]["k"] not in ("use", "cast"):
+                return None
+            pl = op_place(d[3]["op"])
+        return None
+
+    def range_of(op, adt_suffix):
+        """the bound operand of a RangeTo/RangeFrom aggregate an operand copies"""
+        pl = op_place(op)
+        for _ in range(6):
+            if pl is None or pl["p"]:
+                return None
+            d = fa.single_def(pl["l"])
+            if d is None or d[2] != "assign":
+                return None
+            rv = d[3]
+            if rv["k"] == "agg" and str(rv.get("adt", "")).endswith(adt_suffix):
+                return rv["ops"][0]
+            if rv["k"] != "use":
+                return None
+            pl = op_place(rv["op"])
+        return None
+
+    # (a) appends of output[..nout]
+    app = []
+    acc = set()
+    for b, t in fa.calls():
+        nm = (callee_of(t) or {}).get("name")
+        if nm not in ("extend_from_slice", "extend", "push_str", "write_all") or len(t["args"]) < 2:
+            continue
+        src = t["args"][1]
+        if buffer_var(fa, src) != outbuf:
+            continue
+        # the slice bound is nout
+        bound_ok = False
+        pl = op_place(src)
+        for _ in range(10):
+            if pl is None:
+                break
+            d = fa.single_def(pl["l"])
+            if d is None:
+                break
+            if d[2] == "call":
+                if (callee_of(d[3]) or {}).get("name") in ("index", "index_mut") and len(d[3]["args"]) > 1:
+                    r = range_of(d[3]["args"][1], "RangeTo")
+                    bound_ok = r is not None and tuple_field_of_result(r) == 2
+                    break
+                pl = op_place(d[3]["args"][0]) if d[3]["args"] else None
+                continue
+            rv = d[3]
+            pl = op_place(rv["op"]) if rv["k"] in ("use", "cast") else rv.get("place") if rv["k"] == "ref" else None
+        if bound_ok:
+            app.append(b)
+            acc.add(buffer_var(fa, t["args"][0]))
+    pushes = [(b, t) for b, t in calls_named(fa, "push") if len(t["args"]) >= 2]
+    push_b = {b for b, t in pushes}
+    if not pushes:
+        raise EngineError("CSVROW: no cell is pushed in parse_csv_row")
+    oka = bool(app)
+    if oka:
+        r = fa.reachable(after, avoid=set(app))
+        oka = rb not in r and not (r & push_b) and not any(fa.term(x)["k"] == "return" for x in r)
+    ctx.ob("CSVROW", "parse_csv_row|every-chunk-appended", oka, fa.loc(rb),
+           "every chunk output[..nout] is appended to the cell before the next read, emit or return"
+           if oka else
+           "parse_csv_row can read again, emit a cell or return without appending the chunk "
+           "output[..nout] it just decoded (an OutputFull step loses the chunk: cells longer than "
+           "the buffer are cut)")
+    # (b) the emitted value is the accumulated cell
+    okb = True
+    for b, t in pushes:
+        pl = op_place(t["args"][1])
+        src = None
+        for _ in range(16):
+            if pl is None:
+                break
+            if pl["l"] in acc or pl["l"] == outbuf:
+                src = pl["l"]
+                break
+            d = fa.single_def(pl["l"])
+            if d is None:
+                src = pl["l"]
+                break
+            if d[2] == "call":
+                pl = op_place(d[3]["args"][0]) if d[3]["args"] else None
+                continue
+            rv = d[3]
+            pl = op_place(rv["op"]) if rv["k"] in ("use", "cast") else rv.get("place") if rv["k"] in ("ref", "rawptr") else None
+        if src not in acc:
+            okb = False
+    ctx.ob("CSVROW", "parse_csv_row|emits-the-accumulated-cell", okb, fa.loc(pushes[0][0]),
+           "the cell pushed is the accumulated cell" if okb else
+           "parse_csv_row pushes something other than the accumulated cell (the decode buffer holds "
+           "only the last chunk of a long cell)")
+    # (c) every outcome but OutputFull emits a cell
+    sw = None
+    for b in sorted(fa.live_blocks()):
+        t = fa.term(b)
+        if t["k"] != "switch":
+            continue
+        o = fa.origin(t["op"])
+        if o[0] == "rv" and o[1]["k"] == "discr" and tuple_field_of_result({"c": o[1]["place"]}) == 0:
+            sw = (b, t)
+    if sw is None:
+        raise EngineError("CSVROW: the result of read_field is not matched on")
+    sb, st = sw
+    arms = dict(zip(st["vals"], st["targets"]))
+    okc = True
+    bad = []
+    for v, tg in sorted(arms.items()):
+        if v in (1, 3):
+            continue
+        r = fa.reachable(tg, avoid=push_b) if tg not in push_b else set()
+        if rb in r or any(fa.term(x)["k"] == "return" for x in r):
+            okc = False
+            bad.append({0: "InputEmpty", 2: "Field"}.get(v, str(v)))
+    ctx.ob("CSVROW", "parse_csv_row|every-field-outcome-emits-a-cell", okc, fa.loc(sb),
+           "InputEmpty and Field each emit the cell before the next read or the return"
+           if okc else
+           "after a %s outcome parse_csv_row can read on or return without emitting the cell: a "
+           "cell is dropped (e.g. the empty last cell of `x,y,`), shifting or shortening the columns"
+           % "/".join(bad))
+    # (e) End carries no cell: csv-core returns End only after the last field was returned by a
+    # Field result (with an empty chunk), so emitting on End appends a cell that is not in the row
+    oke = True
+    if 3 in arms:
+        tg = arms[3]
+        # blocks from which the loop head or the return is reachable without another read
+        r = fa.reachable(tg, avoid={rb})
+        oke = not (r & push_b) and tg not in push_b
+    ctx.ob("CSVROW", "parse_csv_row|end-outcome-emits-nothing", oke, fa.loc(sb),
+           "the End outcome leaves the loop without emitting a cell" if oke else
+           "parse_csv_row emits a cell on the End outcome: csv-core has already returned every field "
+           "by then (a row ending in its delimiter, `x,y,`, gets a spurious extra empty cell, so "
+           "the feature one past the end counts as present-and-empty instead of absent)")
+    # (d) the input advances by nin
+    adv = []
+    for b, t in fa.calls():
+        if (callee_of(t) or {}).get("name") == "index" and len(t["args"]) > 1:
+            r = range_of(t["args"][1], "RangeFrom")
+            if r is not None and tuple_field_of_result(r) == 1 and \
+                    buffer_var(fa, t["args"][0]) == buffer_var(fa, rt["args"][1]):
+                adv.append(b)
+    okd = bool(adv) and rb not in fa.reachable(after, avoid=set(adv))
+    ctx.ob("CSVROW", "parse_csv_row|input-advances-by-consumed-count", okd, fa.loc(rb),
+           "the input slice is advanced by nin before every further read" if okd else
+           "parse_csv_row can call read_field again without advancing the input by the consumed count")
+
+
 def quoter(ctx):
     """QUOTER (C14): utils::quote_csv_cell is the only place where a surface becomes a CSV cell.
     Every byte it writes comes out of the csv-core writer's output buffer (never straight from
